@@ -289,6 +289,43 @@ theorem strip_fixed (s : PStr) (hh : ∀ c, s.head? = some c → isSpace c = fal
 theorem strip_idem (s : PStr) : strip (strip s) = strip s :=
   strip_fixed _ (strip_head s) (strip_last s)
 
+theorem dropWhile_append_all (p : Nat → Bool) (a r : List Nat) (ha : ∀ c ∈ a, p c = true) :
+    (a ++ r).dropWhile p = r.dropWhile p := by
+  induction a with
+  | nil => rfl
+  | cons x xs ih =>
+    have hx := ha x (by simp)
+    simp only [List.cons_append, List.dropWhile_cons, hx, if_true]
+    exact ih (fun c hc => ha c (by simp [hc]))
+
+/-- uniqueness: whatever way `s` is written as whitespace ++ `m` ++ whitespace with `m` free of leading and
+    trailing whitespace, `m` is `strip s` -/
+theorem strip_unique (s a m b : PStr) (hs : s = a ++ m ++ b) (ha : ∀ c ∈ a, isSpace c = true)
+    (hb : ∀ c ∈ b, isSpace c = true) (hh : ∀ c, m.head? = some c → isSpace c = false)
+    (hl : ∀ c, m.getLast? = some c → isSpace c = false) : strip s = m := by
+  subst hs
+  unfold strip lstrip rstrip
+  rw [List.append_assoc, dropWhile_append_all isSpace a (m ++ b) ha]
+  cases m with
+  | nil =>
+    simp only [List.nil_append]
+    have : b.dropWhile isSpace = [] := by
+      have := dropWhile_append_all isSpace b [] hb
+      simpa using this
+    rw [this]; rfl
+  | cons x xs =>
+    have hx := hh x rfl
+    have h1 : ((x :: xs) ++ b).dropWhile isSpace = (x :: xs) ++ b := by
+      simp [hx]
+    rw [h1, List.reverse_append, dropWhile_append_all isSpace b.reverse (x :: xs).reverse
+      (fun c hc => hb c (List.mem_reverse.mp hc))]
+    have h2 : ((x :: xs).reverse).dropWhile isSpace = (x :: xs).reverse := by
+      apply dropWhile_id_of_head
+      intro c hc
+      rw [List.head?_reverse] at hc
+      exact hl c hc
+    rw [h2, List.reverse_reverse]
+
 /-! ### `.string` -/
 
 mutual
@@ -310,5 +347,119 @@ theorem stringProp_complete (n : Node) (c : StrClass) (v : PStr) (h : SoleChain 
   induction h with
   | here c v => simp [stringProp]
   | down _ ih => simp [stringProp, stringPropL, ih]
+
+/-! ### one-shot iterators -/
+
+theorem iterIn_spec (c : StrClass) : ∀ (it : List StrClass),
+    ((iterIn c it).1 = true → c ∈ it) ∧ (∀ d ∈ (iterIn c it).2, d ∈ it) := by
+  intro it
+  induction it with
+  | nil => simp [iterIn]
+  | cons d ds ih =>
+    by_cases h : (d == c) = true
+    · have : d = c := by simpa using h
+      simp only [iterIn, h, if_true]
+      exact ⟨fun _ => by simp [this], fun x hx => List.mem_cons_of_mem _ hx⟩
+    · simp only [iterIn, h]
+      exact ⟨fun hf => List.mem_cons_of_mem _ (ih.1 hf), fun x hx => List.mem_cons_of_mem _ (ih.2 x hx)⟩
+
+theorem tagKeep_all_of_many (cs : List StrClass) (strp : Bool) (c : StrClass) (v : PStr) (hc : c ∈ cs) :
+    tagKeep (.many cs) strp (.str c v) = tagKeep .all strp (.str c v) := by
+  simp [tagKeep, Types.keeps, hc]
+
+/-- with a one-shot iterator the loop yields a sublist of what the same classes as a tuple would yield -/
+theorem iterWalk_sublist (strp : Bool) (cs : List StrClass) : ∀ (l : List Node) (it : List StrClass),
+    (∀ d ∈ it, d ∈ cs) → (iterWalk strp it l).Sublist (l.filterMap (tagKeep (.many cs) strp)) := by
+  intro l
+  induction l with
+  | nil => intro it _; simp [iterWalk]
+  | cons n ns ih =>
+    intro it hit
+    cases n with
+    | tag nm i ks =>
+      simp only [iterWalk, List.filterMap_cons, tagKeep]
+      exact ih it hit
+    | str c v =>
+      have hsp := iterIn_spec c it
+      simp only [iterWalk, List.filterMap_cons]
+      cases hr : iterIn c it with
+      | mk found it' =>
+        rw [hr] at hsp
+        have hsub : ∀ d ∈ it', d ∈ cs := fun d hd => hit d (hsp.2 d hd)
+        cases found with
+        | true =>
+          simp only
+          rw [tagKeep_all_of_many cs strp c v (hit c (hsp.1 rfl))]
+          cases tagKeep .all strp (.str c v) with
+          | none => simpa using ih it' hsub
+          | some x => simpa using (ih it' hsub).cons_cons x
+        | false =>
+          simp only
+          cases tagKeep (.many cs) strp (.str c v) with
+          | none => exact ih it' hsub
+          | some x => exact (ih it' hsub).cons x
+
+/-! ### copies, class numbering -/
+
+mutual
+theorem copyNode_id (main : List StrClass) (n : Node) : copyNode main n = n := by
+  cases n with
+  | str c v => simp [copyNode]
+  | tag nm i ks =>
+    simp only [copyNode, copySelfInteresting, tagInitInteresting]
+    rw [copyNodeL_id main ks]
+theorem copyNodeL_id (main : List StrClass) (l : List Node) : copyNodeL main l = l := by
+  cases l with
+  | nil => simp [copyNodeL]
+  | cons k ks => simp only [copyNodeL]; rw [copyNode_id main k, copyNodeL_id main ks]
+end
+
+theorem ofCode_code (c : StrClass) : StrClass.ofCode c.code = c := by
+  cases c with
+  | other k => simp only [StrClass.code]; rw [Nat.add_comm]; rfl
+  | _ => rfl
+
+theorem code_eq_zero (c : StrClass) : c.code = 0 ↔ c = .navigableString := by
+  cases c <;> simp [StrClass.code]
+
+theorem code_inj (a b : StrClass) (h : a.code = b.code) : a = b := by
+  rw [← ofCode_code a, ← ofCode_code b, h]
+
+theorem lookup_mem {α : Type} [BEq α] [LawfulBEq α] {β : Type} (k : α) (v : β) :
+    ∀ (l : List (α × β)), l.lookup k = some v → (k, v) ∈ l := by
+  intro l
+  induction l with
+  | nil => intro h; simp [List.lookup] at h
+  | cons a l ih =>
+    obtain ⟨k', d⟩ := a
+    intro h
+    simp only [List.lookup] at h
+    split at h
+    · rename_i heq
+      have : k = k' := by simpa using heq
+      simp_all
+    · exact List.mem_cons_of_mem _ (ih h)
+
+/-- the innermost open container element, found through a split of the list of open names -/
+theorem containerStackTop_split (cont : List (PStr × StrClass)) (pre : List PStr) (nm : PStr) (post : List PStr)
+    (c : StrClass) (hpre : ∀ g ∈ pre, cont.lookup g = none) (hnm : cont.lookup nm = some c) :
+    containerStackTop cont (pre ++ nm :: post) = some nm := by
+  unfold containerStackTop
+  induction pre with
+  | nil => simp [hnm]
+  | cons g gs ih =>
+    have hg := hpre g (by simp)
+    simp only [List.cons_append, List.find?, hg, Option.isSome_none]
+    exact ih (fun x hx => hpre x (by simp [hx]))
+
+theorem containerStackTop_none (cont : List (PStr × StrClass)) (names : List PStr)
+    (h : ∀ g ∈ names, cont.lookup g = none) : containerStackTop cont names = none := by
+  unfold containerStackTop
+  induction names with
+  | nil => rfl
+  | cons g gs ih =>
+    have hg := h g (by simp)
+    simp only [List.find?, hg, Option.isSome_none]
+    exact ih (fun x hx => h x (by simp [hx]))
 
 end BS.Text
